@@ -105,7 +105,7 @@ func c51(c *Ctx) {
 	findCall := findCalls[0].(*ssa.Call)
 	chGet := Calls("(publicsuffix.uint32String).get").F(c.P, psFn)
 	if c.Count(ps, Calls("(publicsuffix.uint32String).get"), 1, 1) {
-		arg := Term(chGet[0].(*ssa.Call).Call.Args[1])
+		arg := Term(BaselineArgs(&chGet[0].(*ssa.Call).Call)[1])
 		c.Check(strings.HasSuffix(arg, fmt.Sprintf(">>%d)>>%d)&%d)", sTO+sTL, k["nodesBitsICANN"], mask(k["nodesBitsChildren"]))) && strings.HasPrefix(arg, "(((get(publicsuffix.nodes,"), "decoding", ps+": children index = node >> (textOffset+textLength) >> icann & mask", chGet[0].Pos(), arg, "children.get is indexed by "+arg)
 	}
 	leafTerms := func(v ssa.Value) []string {
@@ -123,7 +123,7 @@ func c51(c *Ctx) {
 		}
 		return false
 	}
-	loL, hiL := leafTerms(findCall.Call.Args[1]), leafTerms(findCall.Call.Args[2])
+	loL, hiL := leafTerms(BaselineArgs(&findCall.Call)[1]), leafTerms(BaselineArgs(&findCall.Call)[2])
 	c.Check(has(loL, func(s string) bool { return s == "0" }) && has(hiL, func(s string) bool { return s == fmt.Sprint(k["numTLD"]) }), "root-range", ps+": the walk starts with [0, numTLD)", findCall.Pos(), "", fmt.Sprintf("initial lo/hi leaves are %v / %v", loL, hiL))
 	c.Check(has(loL, func(s string) bool {
 		return strings.HasPrefix(s, "(get(publicsuffix.children,") && strings.HasSuffix(s, fmt.Sprintf(")&%d)", mask(k["childrenBitsLo"])))
@@ -209,7 +209,7 @@ func c51(c *Ctx) {
 				continue
 			}
 			if ifi, ok := b.Instrs[len(b.Instrs)-1].(*ssa.If); ok {
-				if bo, ok := ifi.Cond.(*ssa.BinOp); ok && bo.Op == token.EQL && (bo.X == findCall.Call.Args[1] && bo.Y == findCall.Call.Args[2] || bo.X == findCall.Call.Args[2] && bo.Y == findCall.Call.Args[1]) {
+				if bo, ok := ifi.Cond.(*ssa.BinOp); ok && bo.Op == token.EQL && (bo.X == BaselineArgs(&findCall.Call)[1] && bo.Y == BaselineArgs(&findCall.Call)[2] || bo.X == BaselineArgs(&findCall.Call)[2] && bo.Y == BaselineArgs(&findCall.Call)[1]) {
 					emptyRange = wildIf.Block().Dominates(b) && wildIf.Block() != b
 				}
 			}
@@ -228,7 +228,7 @@ func c51(c *Ctx) {
 	c.Guard(ps, RetConst(1, "false").Where("value is the input", func(in ssa.Instruction) bool { return Term(in.(*ssa.Return).Results[0]) == "$0" }), "ParseAddr($0)#1 == nil")
 	c.Guard(ps, Calls("(publicsuffix.uint40String).get"), Term(findCall)+" != @publicsuffix.notFound")
 	{
-		t := Term(findCall.Call.Args[0])
+		t := Term(BaselineArgs(&findCall.Call)[0])
 		good := false
 		if i := strings.Index(t, "[(1+LastIndexByte("); i > 0 {
 			good = t == t[:i]+"[(1+LastIndexByte("+t[:i]+",46)):]"
@@ -310,7 +310,7 @@ func c51find(c *Ctx) {
 	if !c.Count(name, Calls("publicsuffix.nodeLabel"), 1, 1) {
 		return
 	}
-	mid := nl[0].(*ssa.Call).Call.Args[0]
+	mid := BaselineArgs(&nl[0].(*ssa.Call).Call)[0]
 	lab := Term(nl[0].(ssa.Value))
 	c.Guard(name, Returns().Where("returns mid", func(in ssa.Instruction) bool { return in.(*ssa.Return).Results[0] == mid }), "$0 == "+lab)
 	c.Count(name, Returns().Where("returns mid", func(in ssa.Instruction) bool { return in.(*ssa.Return).Results[0] == mid }), 1, 1)
